@@ -83,6 +83,8 @@ def run(run, args):
     run.oblige("correspondence: Mz.v = mz.rs bit for bit on the direct conversion calls", not mres[0], "%d differ" % len(mres[0]))
     run.oblige("neutral_mass inverts mass_charge_ratio, and both are the stated formulas, on every direct call", not mres[1], "%d fail" % len(mres[1]))
     broken = standard_proof_obligations(run, "C10", THEOREMS) if THEOREMS else []
+    # "only": intensities and peak counts are the same at every charge (corollaries of the rescaling theorems)
+    broken += standard_proof_obligations(run, "C10a", ["C10a_poisson_frame", "C10a_convolution_frame", "C10a_convolution_two_charges", "C10a_brain_frame"])
     broken += source_corollaries(run, "C10s", ['C10s_inverse', 'C10s_formula', 'C10s_charge_zero', 'C10s_poisson', 'C10s_brain', 'C10s_convolution'], ('mz', 'poisson', 'brain', 'convolution', 'peak'))
     # floating-point level: neutral_mass o mass_charge_ratio in rounded arithmetic, and its binary64 instance
     broken += standard_proof_obligations(run, "C10f", ["C10_inverse_rounded", "C10_binary64_std_ext", "C10_inverse_binary64", "C10_float_nonvacuous"],
